@@ -590,6 +590,7 @@ def design_model(ctx, machine=False):
         for cfg, c in ctx.pick([("WireMachine", "Little=TRUE Level=1")],
                                [("WireMachine_2", "Little=TRUE Level=2"), ("WireMachine_any_2", "Little=FALSE Level=2")]):
             tlc.check_model(ctx, "WireMachine", cfg, constants=c, timeout=3000)
+        machine_drift(ctx)
         if not ctx.quick:
             for cfg in ("WireMachine_neg1", "WireMachine_neg2"):
                 neg = tlc.run_tlc(tlc.SPECS / "WireMachine.tla", tlc.SPECS / (cfg + ".cfg"), ctx.scratch)
@@ -645,3 +646,86 @@ def selftest_cross(ctx, camp):
     rej = tlc.validate_traces(ctx, "CodecTrace", [first, second])
     ctx.cov["traces_validated_against_impl"] = before
     ctx.selftest("a record disagreeing with the first record of its case is rejected", 1 in rej and 0 not in rej)
+
+
+def machine_drift(ctx):
+    """Bind the I-layer WireMachine to the templates structurally: TLC emits, for every type of the machine's universe, which write path the
+    model chooses per field (whole-byte store / memmove / exact bits / nested call); the same sequence is read off the generated C text.
+    A difference is model drift (NOTE, exit 0): the fast-path choice of the templates changed and WireMachine.tla should follow."""
+    import re
+    import tempfile
+    from .harness_py import generate
+
+    n = 0
+    for cfg, opts in (("WireMachine_plan", {"target_endianness": "little"}), ("WireMachine_plan_any", {})):
+        recs = tlc.emit_cases(ctx, "WireMachine", cfg, name=cfg + ".cfg", constants="structural plans, Little=%s" % bool(opts))
+        ts = dsdl.TypeSet("wm")
+        tops = []
+        for r in recs:
+            t = _with_wcap(r["t"])
+            ts.add(t)
+            tops.append((t, r["plan"]))
+        root = ctx.scratch / ("wm_" + cfg)
+        nsdir = ts.write(root / "dsdl")
+        generate("c", nsdir, root / "out", language_options=opts)
+        for t, plan in tops:
+            text = (root / "out" / "wm" / ("%s_1_0.h" % t["name"])).read_text()
+            body = text[text.index("wm_%s_1_0_serialize_(" % t["name"]):text.index("wm_%s_1_0_deserialize_(" % t["name"])]
+            got = [_collapse(_ops_of(b)) for b in _field_blocks(body)]     # two-branch single-bit read-modify-write = one exact-bits write
+            want = [_collapse(list(p)) for p in plan]
+            n += 1
+            if got != want:
+                ctx.drift("WireMachine plan differs from generated C for %s (%s): model %r, code %r" % (dsdl.shape(t), cfg, want, got))
+    ctx.cov["machine_structural_binding"] = "%d generated serializers compared field by field with the machine's write-path plan" % n
+
+
+def _with_wcap(t):
+    if t["k"] == "varr":
+        t = dict(t, e=_with_wcap(t["e"]))
+    elif t["k"] == "farr":
+        t = dict(t, e=_with_wcap(t["e"]))
+    elif dsdl.is_comp(t):
+        t = dict(t, fields=[_with_wcap(f) for f in t["fields"]])
+    return t
+
+
+def _collapse(ops):
+    return [o for i, o in enumerate(ops) if i == 0 or o != ops[i - 1]]
+
+
+def _field_blocks(body):
+    """the `{   // <field>` ... `}` blocks of a generated serializer (brace matched, so padding code between fields is not included)"""
+    import re
+
+    res = []
+    for m in re.finditer(r"\n\s*\{   // ", body):
+        i = body.index("{", m.start())
+        depth, j = 0, i
+        while j < len(body):
+            if body[j] == "{":
+                depth += 1
+            elif body[j] == "}":
+                depth -= 1
+                if depth == 0:
+                    break
+            j += 1
+        res.append(body[i:j + 1])
+    return res
+
+
+def _ops_of(block):
+    import re
+
+    ops = []
+    for ln in block.splitlines():
+        if re.search(r"buffer\[offset_bits / 8U\] = \((?:uint8_t|unsigned char)\)\(buffer\[", ln):
+            ops.append("bits")
+        elif re.search(r"buffer\[offset_bits / 8U\] = ", ln):
+            ops.append("byte")
+        elif re.search(r"mem(?:move|set)\(&buffer\[", ln):
+            ops.append("move")
+        elif re.search(r"nunavutSet[UI]xx\(|nunavutSetF\d+\(|nunavutCopyBits\(&buffer", ln):
+            ops.append("bits")
+        elif re.search(r"_serialize_\($", ln.rstrip()) or re.search(r"= \w+_serialize_\(", ln):
+            ops.append("call")
+    return ops
